@@ -175,6 +175,7 @@ class Harness:
         self.producers = {}
         self.published = []       # (key, event type name, payload, getter value inside the notification)
         self.exec_count = 0
+        self.bad_strategy_accepted = []
         self.inits = 0
         self.runaway = False
         self.workers = []         # every run thread this simulator ever created
@@ -321,6 +322,17 @@ class Harness:
                 from pydsol.core.simulator import ErrorStrategy
                 sim.set_error_strategy({"log": ErrorStrategy.LOG_AND_CONTINUE, "warn": ErrorStrategy.WARN_AND_CONTINUE,
                                         "pause": ErrorStrategy.WARN_AND_PAUSE}[a[1]])
+            elif k == "badstrategy":
+                # a strategy that does not exist must be refused (with or without an explicit log level) and change nothing
+                bogus = {"zero": 0, "name": "pause", "none": None, "big": 99, "neg": -1}[a[1]]
+                try:
+                    if a[2]:
+                        sim.set_error_strategy(bogus, 60)
+                    else:
+                        sim.set_error_strategy(bogus)
+                    self.bad_strategy_accepted.append(a)
+                except Exception:
+                    pass
             elif k == "gate":
                 g = self.gates.setdefault(a[1], Gate())
                 g.reached.set()
@@ -400,6 +412,30 @@ class Harness:
                                 h.fan_producer.remove_listener(h.fan_types[self.tname], self)
                 for spec in listeners:
                     self.fan_producer.add_listener(self.fan_types[tname], FanListener(tname, spec))
+        # listeners the model subscribes to the *simulator's* notifications in construct_model (fresh objects every
+        # replication, as initialize() drops all subscriptions of the previous one)
+        for spec in self.prog.get("simlisteners", []):
+            from pydsol.core.interfaces import SimulatorInterface, ReplicationInterface
+
+            class SimListener(EventListener):
+                def __init__(self, spec):
+                    self.spec, self.n = spec, 0
+
+                def notify(self, event):
+                    self.n += 1
+                    h.timeline.append(("sl", self.spec["name"], event.event_type.name))
+                    for a in self.spec["script"]:
+                        if a[0] == "draw":
+                            h.timeline.append(("d", self.spec["name"], h.streams[a[1]].next_float().hex()))
+                        elif a[0] == "schedrel":
+                            d = h._draw(a[1], "DistExponential", [1.0])
+                            tag = f"{self.spec['name']}_{self.n}"
+                            ev = sim.schedule_event_rel(time_value(h.prog, d) if h.prog["clock"] != "int" else int(d),
+                                                        model, "h", a[2], tag=tag)
+                            h.events[tag] = ev
+            et = {"WARMUP_EVENT": ReplicationInterface.WARMUP_EVENT, "TIME_CHANGED_EVENT": SimulatorInterface.TIME_CHANGED_EVENT,
+                  "START_EVENT": SimulatorInterface.START_EVENT}[spec["type"]]
+            sim.add_listener(et, SimListener(spec))
         for sp in self.prog.get("stats", []):
             key, kind = sp["key"], sp["kind"]
             cls = {"counter": S.SimCounter, "tally": S.SimTally, "wtally": S.SimWeightedTally, "persistent": S.SimPersistent}[kind]
@@ -515,6 +551,7 @@ class Harness:
         return out
 
     def _cmd(self, name, *args):
+        t0 = time.time()
         try:
             if name == "initialize":
                 self.initialize()
@@ -526,6 +563,9 @@ class Harness:
                 self.sim.cleanup()
             else:
                 getattr(self.sim, name)()
+            # what the caller sees the moment the command returns
+            self.state_at_return = self.sim.run_state.name
+            self.cmd_seconds = time.time() - t0
             return "ok"
         except BaseException as e:     # also SystemExit / abort signals escaping from a command are an observation
             return type(e).__name__
